@@ -142,7 +142,7 @@ theorem elemsUper_step (c : SetOfCfg) (n i : Nat) (bits : Bits) (s : LoopState) 
     elemsUper c n (i + 1) bits s =
       if bits.length < c.w then (.more, bits, { s with h := (s.h.alloc c.esz).free c.esz })
       else match c.limit with
-        | some lim => if c.rep0 && decide (n > lim) then (.fail, bits.drop c.w, addOne c s)
+        | some lim => if decide (c.w = 0) && decide (n > lim) then (.fail, bits.drop c.w, addOne c s)
                       else elemsUper c n i (bits.drop c.w) (addOne c s)
         | none => elemsUper c n i (bits.drop c.w) (addOne c s) := by
   simp only [elemsUper, addOne]
@@ -189,7 +189,7 @@ theorem elemsUper_cnt_wide (c : SetOfCfg) (n : Nat) :
       · exact Nat.le_trans (ih _ _) hstep
 
 /-- zero-width elements under the guard: an announced count above the limit fails on the first element -/
-theorem elemsUper_zero (c : SetOfCfg) (lim n : Nat) (hw : c.w = 0) (hr : c.rep0 = true) (hl : c.limit = some lim) :
+theorem elemsUper_zero (c : SetOfCfg) (lim n : Nat) (hw : c.w = 0) (hl : c.limit = some lim) :
     ∀ (todo : Nat) (bits : Bits) (s : LoopState),
       (elemsUper c n todo bits s).2.2.cnt ≤ s.cnt + (if n > lim then 1 else todo) ∧
       (n > lim → todo ≥ 1 → (elemsUper c n todo bits s).1 = .fail) := by
@@ -200,7 +200,8 @@ theorem elemsUper_zero (c : SetOfCfg) (lim n : Nat) (hw : c.w = 0) (hr : c.rep0 
     intro bits s
     rw [elemsUper_step]
     have hnl : ¬ (bits.length < c.w) := by omega
-    simp only [hnl, if_false, hl, hr, Bool.true_and]
+    have hd : decide (c.w = 0) = true := by simp [hw]
+    simp only [hnl, if_false, hl, hd, Bool.true_and]
     by_cases hn : n > lim
     · simp [hn, addOne_cnt]
     · simp only [hn, decide_false, if_false]
@@ -209,6 +210,29 @@ theorem elemsUper_zero (c : SetOfCfg) (lim n : Nat) (hw : c.w = 0) (hr : c.rep0 
       constructor
       · simp only [Bool.false_eq_true, if_false]; omega
       · intro h; exact h.elim
+
+/-- elements that take bits are never refused by the guard, whatever count was announced (finding F47
+    repaired: the guard looks at the bits moved, not at what the element decoder reports) -/
+theorem elemsUper_wide_ok (c : SetOfCfg) (n : Nat) (hw : 0 < c.w) :
+    ∀ (todo : Nat) (bits : Bits) (s : LoopState), todo * c.w ≤ bits.length →
+      (elemsUper c n todo bits s).1 = .ok ∧ (elemsUper c n todo bits s).2.2.cnt = s.cnt + todo ∧
+      (elemsUper c n todo bits s).2.1 = bits.drop (todo * c.w) := by
+  intro todo
+  induction todo with
+  | zero => intro bits s _; simp [elemsUper]
+  | succ i ih =>
+    intro bits s hb
+    rw [elemsUper_step]
+    have hmul : (i + 1) * c.w = c.w + i * c.w := by rw [Nat.add_mul, Nat.one_mul, Nat.add_comm]
+    have hnl : ¬ (bits.length < c.w) := by omega
+    have hwz : ¬ (c.w = 0) := by omega
+    have hrest : i * c.w ≤ (bits.drop c.w).length := by rw [List.length_drop]; omega
+    have := ih (bits.drop c.w) (addOne c s) hrest
+    rw [addOne_cnt, List.drop_drop] at this
+    simp only [hnl, if_false, hwz, decide_false, Bool.false_and, Bool.false_eq_true]
+    cases c.limit with
+    | none => simp only; rw [hmul]; refine ⟨this.1, ?_, this.2.2⟩; omega
+    | some lim => simp only; rw [hmul]; refine ⟨this.1, ?_, this.2.2⟩; omega
 
 /-! ### bit fetch, length determinant -/
 
@@ -332,7 +356,7 @@ theorem roundsUper_cnt_wide (c : SetOfCfg) :
       · omega
 
 /-- zero-width elements under the guard: the whole decode keeps at most `max lim 1` elements -/
-theorem roundsUper_cnt_zero (c : SetOfCfg) (lim : Nat) (hw : c.w = 0) (hr : c.rep0 = true)
+theorem roundsUper_cnt_zero (c : SetOfCfg) (lim : Nat) (hw : c.w = 0)
     (hl : c.limit = some lim) (hlim : lim < 16384) :
     ∀ (fuel : Nat) (first : Option Nat) (bits : Bits) (s : LoopState),
       (roundsUper c fuel first bits s).2.2.cnt ≤ s.cnt + max lim 1 := by
@@ -345,7 +369,7 @@ theorem roundsUper_cnt_zero (c : SetOfCfg) (lim : Nat) (hw : c.w = 0) (hr : c.re
     split
     · simp
     · rename_i n rep bits1 hlen
-      have hz := elemsUper_zero c lim n hw hr hl n bits1 s
+      have hz := elemsUper_zero c lim n hw hl n bits1 s
       split
       · rename_i bits2 s2 heq
         rw [heq] at hz
